@@ -1532,4 +1532,20 @@ theorem C20_memo_rerun_witness :
     tasksOkB leakWorld (memoState true) = true ∧ tasksOkB leakWorld (memoState false) = false := by
   decide
 
+/-- **C20_none_stays_none.**  Polling a wrapped task — or any task whose steps are scoped — on a thread that has NO
+current owner leaves it without one ("unrelated work that starts from `Owner::current()` afterwards is not adopted
+by the request"); `C20_with_restores` for the ambient state `none`. -/
+theorem C20_none_stays_none (w : World) (s : State) (i : Nat) (t : Task) (hi : s.tasks[i]? = some t)
+    (h : t.wrapped = true ∨ ∀ st ∈ t.steps, st.scoped = true) (hnone : s.amb.owner = none) :
+    (pollTask w s i).amb.owner = none := by
+  rw [((C20_with_restores w t.req s.amb s.mem []).2.2.2 s i t hi h).1, hnone]
+
+/-- non-vacuity: an owner-less thread, a wrapped task that even calls `Owner::set` inside -/
+example :
+    let s : State := { amb := {}, mem := { ctx := [⟨0, 100⟩] }
+                       tasks := [{ req := 0, captured := { owner := some 0 }, wrapped := true, sandboxed := true,
+                                   steps := [.setRoot 0, .simple (.readCtx 1)] }] }
+    (pollTask leakWorld s 0).amb.owner = none ∧ ctxSeen (pollTask leakWorld s 0) = [(0, 1, some 100)] := by
+  decide
+
 end Leptos.Ambient
